@@ -22,7 +22,7 @@ LEVEL_TEXT = ("'a thread that started waiting before a wake-up is covered by it'
               "clauses above are proved (unbounded) or checked (bounded, listed under bounded), hence level other")
 ASSUMPTIONS = []
 NOT_DECIDED = ["eventual return of the woken thread",
-               "nsync_wait_n records on a cv (cv_dequeue has no remove_count): suspected genuine race, see DESIGN.md section 7.3",
+               "nsync_wait_n records on a cv beyond the bounded queue groups: the unlink / flag-clear / post of such a record inside one cv spinlock section is checked on queues of 0..3 records (cvq.*); it failed on the tree as given (genuine defect, DESIGN.md section 7.3) and holds since /repo commit 2becd4b",
                "word-level proofs of nsync_cv_signal / nsync_cv_broadcast for unbounded queues (their cv-word steps are checked in the bounded groups)"]
 TRUSTED = []
 PARALLEL = 10
